@@ -203,7 +203,8 @@ def work_a(task):
         if si % nparts != part:
             continue
         r, exp_ret = ref_script_case(image, script, readback)
-        if r.cause == R1.HORIZON:
+        if r.cause in (R1.HORIZON, R1.NEED_INPUT):
+            # the device's writes redirected the run beyond the horizon / into an input op (the scripted device answers no reads): outside the bound
             stats['skipped_horizon'] += 1
             continue
         stats['scripts'] += 1
